@@ -371,17 +371,25 @@ func (e *env) pSvRem(id uint64, list ...string) *pair {
 
 const h0 = 10
 
-func (e *env) approveBy(w gov.Execer, p *pair, names []string, what string) {
-	for _, n := range names {
-		r := gov.Call(w, p.contract, p.method, p.args(e.a(n).Addr), e.a(n), h0)
-		if !r.OK {
+// approveBy (setup only): validators approve one after the other until done() reports the effect; the setup
+// does not presuppose the quorum rule under test.
+func (e *env) approveBy(w gov.Execer, p *pair, done func(m map[string]string) bool, what string) {
+	for i := 1; i <= e.N; i++ {
+		if done(w.Dump().Map()) {
+			return
+		}
+		n := e.vname(i)
+		if r := gov.Call(w, p.contract, p.method, p.args(e.a(n).Addr), e.a(n), h0); !r.OK {
 			panic(fmt.Sprintf("setup %s: approval by %s failed: %v", what, n, r.Err))
 		}
 	}
-	d := w.Dump().Map()
-	if !p.applied(d, d) && p.site != "approveRegisterSideChain" && p.site != "approveUpdateSideChain" {
-		panic("setup " + what + ": no effect after a full approval round")
+	if !done(w.Dump().Map()) {
+		panic("setup " + what + ": no effect after every validator approved")
 	}
+}
+
+func self(p *pair) func(m map[string]string) bool {
+	return func(m map[string]string) bool { return p.applied(m, m) }
 }
 
 func (e *env) regCandidate(w gov.Execer, who string, owner string) polyenv.Result {
@@ -390,7 +398,8 @@ func (e *env) regCandidate(w gov.Execer, who string, owner string) polyenv.Resul
 
 func (e *env) makeCandidate(w gov.Execer, who string) {
 	must(e.regCandidate(w, who, who), "registerCandidate "+who)
-	e.approveBy(w, e.pCand(who), e.firstVals(gov.Quorum(e.N)), "approveCandidate "+who)
+	p := e.pCand(who)
+	e.approveBy(w, p, self(p), "approveCandidate "+who)
 }
 
 func scRec(e *env, owner string, id uint64, tag string) gov.SideChainRec {
@@ -404,10 +413,7 @@ func (e *env) scRequest(w gov.Execer, method, owner string, id uint64, tag strin
 
 func (e *env) registerChain(w gov.Execer, owner string, id uint64) {
 	must(e.scRequest(w, side_chain_manager.REGISTER_SIDE_CHAIN, owner, id, "reg", h0), "registerSideChain")
-	e.approveBy(w, e.pScReg(id), e.firstVals(gov.Quorum(e.N)), "approveRegisterSideChain")
-	if _, ok := w.Dump().Map()[gov.KeySideChain(id)]; !ok {
-		panic("setup: side chain not registered")
-	}
+	e.approveBy(w, e.pScReg(id), func(m map[string]string) bool { _, ok := m[gov.KeySideChain(id)]; return ok }, "approveRegisterSideChain")
 }
 
 func addrs(e *env, names ...string) []common.Address {
@@ -463,7 +469,7 @@ func (e *env) groups(level int) []*group {
 		baseSetup(w)
 		for _, p := range []string{"W1", "W2"} {
 			e.makeCandidate(w, p)
-			e.approveBy(w, e.pBlack(p), e.firstVals(q), "blackNode "+p)
+			e.approveBy(w, e.pBlack(p), self(e.pBlack(p)), "blackNode "+p)
 		}
 	}, pairs: []*pair{with(e.pWhite("W1"), all), with(e.pWhite("W2"), second)}})
 
@@ -500,7 +506,7 @@ func (e *env) groups(level int) []*group {
 		return func(w gov.Execer) {
 			baseSetup(w)
 			must(gov.Call(w, gov.RM, relayer_manager.REGISTER_RELAYER, gov.RelayerList(addrs(e, "ra", "rb"), e.a(x).Addr), e.a(x), h0), "registerRelayer 0")
-			e.approveBy(w, e.pRelReg(0, "ra", "rb"), e.firstVals(q), "approveRegisterRelayer 0")
+			e.approveBy(w, e.pRelReg(0, "ra", "rb"), self(e.pRelReg(0, "ra", "rb")), "approveRegisterRelayer 0")
 			must(gov.Call(w, gov.RM, relayer_manager.REMOVE_RELAYER, gov.RelayerList(addrs(e, "ra"), e.a(x).Addr), e.a(x), h0), "removeRelayer 0")
 			if regPending {
 				must(gov.Call(w, gov.RM, relayer_manager.REGISTER_RELAYER, gov.RelayerList(addrs(e, "rc"), e.a(x).Addr), e.a(x), h0), "registerRelayer 1")
@@ -533,7 +539,7 @@ func (e *env) groups(level int) []*group {
 		return func(w gov.Execer) {
 			baseSetup(w)
 			must(gov.Call(w, gov.SVM, neo3_state_manager.REGISTER_STATE_VALIDATOR, gov.SVList([]string{"sv1", "sv2"}, e.a(x).Addr), e.a(x), h0), "registerSV 0")
-			e.approveBy(w, e.pSvReg(0, "sv1", "sv2"), e.firstVals(q), "approveRegisterSV 0")
+			e.approveBy(w, e.pSvReg(0, "sv1", "sv2"), self(e.pSvReg(0, "sv1", "sv2")), "approveRegisterSV 0")
 			must(gov.Call(w, gov.SVM, neo3_state_manager.REMOVE_STATE_VALIDATOR, gov.SVList([]string{"sv1"}, e.a(x).Addr), e.a(x), h0), "removeSV 0")
 			if regPending {
 				must(gov.Call(w, gov.SVM, neo3_state_manager.REGISTER_STATE_VALIDATOR, gov.SVList([]string{"sv3"}, e.a(x).Addr), e.a(x), h0), "registerSV 1")
